@@ -412,6 +412,37 @@ def check_series_returns(ctx):
             ctx.check('R-CONV/series-return', f, 'copy @ %s' % show(c)[:60], v is not None,
                       'with inplace=False nothing is returned under `%s`' % show(c)[:100], r, sample='returns %s' % U(v)[:40] if v is not None else '')
     ctx.floor('R-CONV/series-return', n_true, 1, '`return True` sites of the inplace mode')
+    # a string (object) column converted in place: nothing to do, True on every path - also when it is empty
+    view = view_of(f)
+    names = sorted(_dtype_names(f))
+    if names:
+        from ..guards import f_and
+        obj_inplace = to_formula(parse_expr('%s == object and inplace' % names[0]))
+        for r in [n for n in walk_own(f.node) if isinstance(n, ast.Return)]:
+            v = r.value
+            if isinstance(v, ast.Constant) and v.value is True:
+                continue
+            c = conds.of(r)
+            sat = Universe(int_atoms=lambda a: True).satisfiable(f_and(c, obj_inplace))
+            ctx.check('R-CONV/series-return', f, 'object+inplace @ %s' % U(v)[:30], not sat,
+                      'an object (string) column with inplace=True can reach `return %s` (under `%s`): the in-place call must '
+                      'return True' % (U(v)[:40], show(c)[:100]), r, sample='not reachable for an object column with inplace=True')
+    # returning the column unconverted (astype(object)) is allowed only when it holds no present value
+    n_sc = 0
+    for r in [n for n in walk_own(f.node) if isinstance(n, ast.Return) and n.value is not None]:
+        vx = untag(view.expand(r.value, r))
+        if not (isinstance(vx, ast.Call) and isinstance(vx.func, ast.Attribute) and vx.func.attr == 'astype' and vx.args
+                and U(vx.args[0]) == 'object' and U(vx.func.value) == f.params[0]):
+            continue
+        n_sc += 1
+        c = Conds(f.node, lambda e, st: untag(view.expand(e, st))).of(r)
+        ser = f.params[0]
+        ref = to_formula(parse_expr('len(%s) == 0 or len(%s.dropna()) == 0' % (ser, ser)))
+        w = Universe(int_atoms=lambda a: True).implies(c, ref)
+        ctx.check('R-CONV/shortcut', f, 'series returned unconverted #%d' % n_sc, w is None,
+                  '`return %s` hands the column back without converting its values under `%s`; allowed only when it has no '
+                  'present value (empty, or nothing left after dropna)' % (U(r.value)[:40], show(c)[:120]), r,
+                  sample='only for a column without present values')
 
 
 def check_shortcut(ctx):
